@@ -306,6 +306,23 @@ def targets():      # noqa: F811
 
 
 
+_GLUE_REPRO = '''import numpy as np
+from pyimpspec import Series, Parallel
+from pyimpspec.circuit.registry import get_elements
+for sym, cls in sorted(get_elements(private=True).items()):
+    e = cls()
+    try:
+        ref = complex(e.get_impedances(np.array([10.0]))[0])
+    except Exception:
+        continue
+    for obj in (e, Series([e]), Parallel([e, cls()])):
+        want = complex(obj.get_impedances(np.array([10.0]))[0])
+        for fq in (10.0, 10, [10.0], np.float64(10.0)):
+            got = complex(np.asarray(obj.get_impedances(fq)).ravel()[0])
+            assert abs(got - want) <= 1e-12 * max(1.0, abs(want)), (sym, type(obj).__name__, fq, got, want)
+'''
+
+
 def target_get_impedances_glue():
     """Element.get_impedances / Connection.get_impedances, whatever shape the frequencies come in (an array, a list, a plain float or
     int): the impedance is computed by `_impedance` with ALL of the object's data -- the parameter values and, for a container
@@ -360,6 +377,9 @@ def target_get_impedances_glue():
             tag = f"[{kind}, frequencies given as {freq_kind}]"
             sess.check("post", [], z3.BoolVal(len(calls) == 1 and calls[0][1] == want_kw), 0, label=f"{tag}one _impedance evaluation with the object's values{' and sub-circuits' if kind == 'container' else ''}")
             sess.check("post", [], z3.BoolVal(isinstance(out, Z) and len(calls) == 1 and out.tag == 1), 0, label=f"{tag}what _impedance computed is what is returned")
+        for ob in sess.obligations:
+            if ob.status == "refuted" and not ob.expect_refuted and not ob.replay:
+                ob.replay = {"input": "every registered element class x frequency given as float / int / list / array", "repro": _GLUE_REPRO}
     return (f"{BASE}:Element.get_impedances / Connection.get_impedances", BASE, "Element.get_impedances", run)
 
 
